@@ -695,6 +695,35 @@ Theorem c04_object_exact env ds os :
   (read_object env os = Ok (norm_object env ds) <-> forallb rt_ok ds = true).
 Proof. apply c04_props_from_exact. Qed.
 
+(* ---------------------------------------------------------------- root schemas *)
+(* the root schema a declaration denotes: kind, name and description as declared, the properties in normal form *)
+Definition norm_root (env : enum_env) (d : root_decl) : rroot :=
+  RR (rd_kind d) (rd_name d) (rd_desc d) (norm_object env (rd_props d)).
+
+Theorem c04_root env d o :
+  zero_std env = true -> rt_root d = true ->
+  write_root env d = Ok o -> read_root env o = Ok (norm_root env d).
+Proof.
+  intros Hstd Hrt Hw. unfold rt_root in Hrt. apply andb_true_iff in Hrt as [Hd Hps].
+  unfold write_root in Hw. apply obind_ok in Hw as [os [Hos Hw]]. inversion Hw; subst o; clear Hw.
+  unfold read_root. cbn [ro_msgopt ro_fields ro_name ro_comment].
+  rewrite (c04_object env (rd_props d) os Hstd Hps Hos). cbn [obind].
+  rewrite (desc_plain_eq _ Hd). reflexivity.
+Qed.
+
+Theorem c04_root_exact env d o :
+  zero_std env = true -> write_root env d = Ok o ->
+  (read_root env o = Ok (norm_root env d) <-> rt_root d = true).
+Proof.
+  intros Hstd Hw. split; [|intro H; exact (c04_root env d o Hstd H Hw)].
+  unfold write_root in Hw. apply obind_ok in Hw as [os [Hos Hw]]. inversion Hw; subst o; clear Hw.
+  unfold read_root, norm_root, rt_root. cbn [ro_msgopt ro_fields ro_name ro_comment].
+  destruct (read_object env os) as [ps| | |] eqn:Er; cbn [obind]; intro H; try discriminate.
+  injection H as Hdesc Hps. apply andb_true_iff. split.
+  - unfold desc_plain. apply str_eqb_eq. exact Hdesc.
+  - apply (c04_object_exact env (rd_props d) os Hstd Hos). rewrite Er, Hps. reflexivity.
+Qed.
+
 (* ---------------------------------------------------------------- names, order, paths: for EVERY compiled object *)
 (* whatever else is lost, a reflected object has the declared property names in
    the declared order and the proto field paths [1], [2], ... — also outside the
